@@ -88,6 +88,7 @@ class Cls:
 class Prog:
 	def __init__(self) -> None:
 		self.classes: list[Cls] = []
+		self.enums: list[tuple[str, list[str]]] = []
 		self.funcs: list[Func] = []
 		self.args: dict[str, list[list[Any]]] = {}
 
@@ -243,6 +244,8 @@ def ps(body: list[S], ind: int) -> list[str]:
 			out.extend(ps(s.c, ind + 1))
 		elif k in ('break', 'continue', 'pass'):
 			out.append(f'{t}{k}')
+		elif k == 'def':
+			out.extend(pfunc(s.a, ind))
 		elif k == 'return':
 			out.append(f'{t}return {pe(s.a)}')
 		elif k == 'expr':
@@ -277,6 +280,12 @@ def pfunc(f: Func, ind: int = 0, method: bool = False) -> list[str]:
 
 def print_prog(p: Prog) -> str:
 	out: list[str] = []
+	if p.enums:
+		out.extend(['from enum import Enum', '', ''])
+	for name, members in p.enums:
+		out.append(f'class {name}(Enum):')
+		out.extend(f'\t{m} = {i}' for i, m in enumerate(members))
+		out.extend(['', ''])
 	for c in p.classes:
 		out.append(f"class {c.name}{'(' + c.base + ')' if c.base else ''}:")
 		for n, ty in c.fields:
@@ -342,6 +351,8 @@ def walk_exprs(p: Prog):
 			elif s.k == 'try':
 				yield from stmts(s.a)
 				yield from stmts(s.b)
+			elif s.k == 'def':
+				yield from stmts(s.a.body)
 
 	for c in p.classes:
 		for f in [c.ctor, *c.methods]:
@@ -468,6 +479,7 @@ class Env:
 		self.mult = parent.mult if parent else 1
 		self.in_loop = parent.in_loop if parent else False
 		self.top = parent is None     # function-level scope: facts learnt here hold on every later path
+		self.closures: list[Func] = list(parent.closures) if parent else []
 		self.locals_only: set[str] = set()
 
 	def of(self, ty: str, pred: Any = None) -> list[Var]:
@@ -609,7 +621,7 @@ class Gen:
 			op = r.choice(['-', '-', '~', '+'])
 			self.count(f'unary:{op}')
 			c = self.gen_int(env, d - 1)
-			if r.random() < 0.12 and op in '+-':
+			if r.random() < 0.04 and op in '+-':
 				c = E('un', 'int', [c], op=op, lo=(-c.hi if op == '-' else c.lo), hi=(-c.lo if op == '-' else c.hi))
 			if level(c) >= L_UN and r.random() < 0.2:
 				c.paren = True
@@ -635,7 +647,7 @@ class Gen:
 		if x < 0.86:
 			return self.gen_int_from_container(env, d) or self.lit_int()
 		if x < 0.93:
-			fs = [f for f in self.helpers if f.ret == 'int' and (not env.in_loop or not f.raises)]
+			fs = [f for f in [*self.helpers, *env.closures] if f.ret == 'int' and (not env.in_loop or not f.raises)]
 			if fs:
 				return self.call_helper(env, r.choice(fs), d)
 			return self.lit_int()
@@ -646,6 +658,14 @@ class Gen:
 				m = int(fl.hi) + 1
 				return E('call', 'int', [fl], val='int', lo=-m, hi=m)
 			return self.lit_int()
+		if r.random() < 0.3:
+			self.count('call:int(str)')
+			i = self.gen_int(env, 0, nonneg=True, cap=9999)
+			digits: E = E('call', 'str', [i], val='str', lo=1, hi=4)
+			if r.random() < 0.5:
+				lit = ''.join(r.choice('0123456789') for _ in range(r.randint(1, 3)))
+				digits = E('bin', 'str', [digits, E('lit', 'str', val=lit, lo=len(lit), hi=len(lit))], op='+', lo=2, hi=7)
+			return E('call', 'int', [digits], val='int', lo=0, hi=9999999)
 		s = self.gen_string_obj(env, 1 if r.random() < 0.3 else 0)
 		self.count('call:len')
 		return E('call', 'int', [s], val='len', lo=s.lo, hi=s.hi)
@@ -732,6 +752,9 @@ class Gen:
 			else:
 				a = self.gen_float(env, 0)
 			args.append(a)
+		if f.default and self.r.random() < 0.4:
+			args.pop()
+			self.count('call:default-arg')
 		self.count('call:helper')
 		return E('call', f.ret, args, val=f.name, lo=f.rlo, hi=f.rhi)
 
@@ -785,9 +808,15 @@ class Gen:
 			if e is not None:
 				return e
 		if x < 0.97:
-			fs = [f for f in self.helpers if f.ret == 'bool' and (not env.in_loop or not f.raises)]
+			fs = [f for f in [*self.helpers, *env.closures] if f.ret == 'bool' and (not env.in_loop or not f.raises)]
 			if fs:
 				return self.call_helper(env, r.choice(fs), d)
+			es = [v for v in env.vars.values() if v.ty.startswith('enum:')]
+			if es:
+				v = r.choice(es)
+				self.count('cmp:enum')
+				members = dict(self.prog.enums)[v.ty[5:]]
+				return E('cmp', 'bool', [self.var_e(v), E('var', v.ty, val=f'{v.ty[5:]}.{r.choice(members)}')], op=[r.choice(['==', '!='])])
 		if x < 0.985:
 			s = self.gen_string_obj(env, 0)
 			self.count('str:startswith')
@@ -920,8 +949,28 @@ class Gen:
 
 	def declare(self, env: Env, body: list[S], ty: str | None = None) -> Var:
 		r = self.r
-		ty = ty or r.choice(['int', 'int', 'int', 'bool', 'str', 'float', 'list[int]', 'dict[str,int]', 'dict[int,int]', 'obj'])
+		ty = ty or r.choice(['int', 'int', 'int', 'bool', 'str', 'float', 'list[int]', 'list[int]', 'dict[str,int]', 'dict[int,int]', 'obj', 'unpack', 'enum'])
 		name = self.fresh('v')
+		if ty == 'unpack':
+			# destructuring of a tuple *variable* (`x, y = (a, b)` directly is emitted as `auto [x, y] = {a, b};`, rejected by g++ — defect candidate)
+			a, b = self.gen_int(env, 1), self.gen_bool(env, 1)
+			body.append(S('assign', E('var', 'tuple', val=name), E('tuple', 'tuple', [a, b])))
+			n1, n2 = self.fresh('v'), self.fresh('v')
+			body.append(S('unpack', [n1, n2], E('var', 'tuple', val=name)))
+			env.vars[n1] = Var(n1, 'int', a.lo, a.hi)
+			env.vars[n2] = Var(n2, 'bool')
+			self.count('assign:destructuring')
+			return env.vars[n1]
+		if ty == 'enum':
+			if not self.prog.enums:
+				return self.declare(env, body, 'int')
+			en, members = r.choice(self.prog.enums)
+			c = self.gen_bool(env, 1)
+			e = E('tern', f'enum:{en}', [E('var', f'enum:{en}', val=f'{en}.{r.choice(members)}'), self.maybe_paren(c, 0.1), E('var', f'enum:{en}', val=f'{en}.{r.choice(members)}')])
+			body.append(S('assign', E('var', f'enum:{en}', val=name), e))
+			env.vars[name] = Var(name, f'enum:{en}')
+			self.count('enum:var')
+			return env.vars[name]
 		if ty == 'int':
 			mutable = r.random() < 0.6
 			nonneg = r.random() < 0.5
@@ -939,8 +988,27 @@ class Gen:
 			e = self.gen_float(env, 1)
 			v = Var(name, 'float', 0, e.hi, fe=e.fe)
 		elif ty == 'list[int]':
-			if r.random() < 0.25 and env.of('list[int]'):
-				src = r.choice(env.of('list[int]'))
+			srcs = env.of('list[int]')
+			if r.random() < 0.2 and [v for v in srcs if v.minlen >= 2]:
+				src = r.choice([v for v in srcs if v.minlen >= 2])
+				hi = r.randint(1, src.minlen)
+				lo = r.randint(0, hi)
+				e = E('slice', 'list[int]', [self.var_e(src), self.lit_int(lo, lo), self.lit_int(hi, hi)])
+				v = Var(name, 'list[int]', src.lo, src.hi)
+				v.minlen = v.maxlen = hi - lo
+				self.count('list:slice')
+			elif r.random() < 0.2:
+				x = self.fresh('i')
+				sub = Env(self, env)
+				n = r.randint(0, 5)
+				sub.vars[x] = Var(x, 'int', 0, max(n - 1, 0))
+				proj = self.gen_int(sub, 1, cap=CORE)
+				e = E('comp', 'list[int]', [E('call', 'range', [self.lit_int(n, n)], val='range'), E('lit', 'bool', val=True), proj], val=('list', x))
+				v = Var(name, 'list[int]', min(proj.lo, -CORE), max(proj.hi, CORE))
+				v.minlen = v.maxlen = n
+				self.count('comprehension:range')
+			elif r.random() < 0.25 and srcs:
+				src = r.choice(srcs)
 				x = self.fresh('x')
 				sub = Env(self, env)
 				sub.vars[x] = Var(x, 'int', src.lo, src.hi)
@@ -956,6 +1024,18 @@ class Gen:
 				v = Var(name, 'list[int]', min(-CORE, *[x.lo for x in elems]), max(CORE, *[x.hi for x in elems]))
 				v.minlen = v.maxlen = len(elems)
 				self.count('literal:list')
+		elif ty == 'dict[int,int]' and r.random() < 0.25 and env.of('list[int]'):
+			src = r.choice(env.of('list[int]'))
+			x = self.fresh('x')
+			sub = Env(self, env)
+			sub.vars[x] = Var(x, 'int', src.lo, src.hi)
+			val = self.gen_int(sub, 1, cap=CORE)
+			cond = self.gen_bool(sub, 1) if r.random() < 0.5 else E('lit', 'bool', val=True)
+			xe = E('var', 'int', val=x, lo=src.lo, hi=src.hi)
+			e = E('comp', ty, [self.var_e(src), cond, xe, val], val=('dict', x))
+			v = Var(name, ty, -CORE, CORE, keys=[])
+			v.maxlen = src.maxlen
+			self.count('comprehension:dict')
 		elif ty in ('dict[str,int]', 'dict[int,int]'):
 			keys: list[Any] = r.sample(['a', 'b', 'k', 'zed'], r.randint(1, 3)) if ty == 'dict[str,int]' else r.sample([0, 1, 2, 5, 9], r.randint(1, 3))
 			vals = [self.gen_int(env, 1, cap=CORE) for _ in keys]
@@ -1296,6 +1376,20 @@ class Gen:
 		self.cur_raises = False
 		for _ in range(r.randint(1, 2)):
 			self.declare(env, body)
+		if r.random() < 0.3:
+			# closure: captures parameters / never-reassigned locals only (C++ captures by value at definition time)
+			cparams = self.gen_params([r.choice(['int', 'int', 'bool'])])
+			cenv = self.env_of(cparams)
+			for v in env.vars.values():
+				if not v.mutable and v.ty in ('int', 'bool', 'str', 'float'):
+					cenv.vars[v.name] = v
+			cret = r.choice(['int', 'bool'])
+			ce = self.gen(cret, cenv, self.size)
+			cf = Func(self.fresh('inner'), cparams, cret, [S('return', ce)])
+			cf.rlo, cf.rhi = ce.lo, ce.hi
+			body.append(S('def', cf))
+			env.closures.append(cf)
+			self.count('closure')
 		for _ in range(r.randint(2, 3 + self.size)):
 			self.gen_stmt(env, body, 2, ret if ret in ('int', 'bool', 'str', 'float') else None)
 		f = Func(name, params, ret, body)
@@ -1456,12 +1550,17 @@ class Gen:
 			if r.random() < 0.4:
 				p.classes.append(self.gen_class('D' + self.fresh(''), c1))
 				self.count('class:inherit')
+		if kind != 'expr' and r.random() < 0.3:
+			p.enums.append(('E' + self.fresh(''), [f'M{i}' for i in range(r.randint(2, 4))]))
+			self.count('enum:class')
 		if kind != 'expr' and r.random() < 0.6:
 			h = self.gen_stmt_func(self.fresh('h'), helper=True) if r.random() < 0.5 else self.gen_expr_func(self.fresh('h'))
 			h.entry = False
 			self.int_summary(h)
-			if h.ret == 'int' and any(s.k == 'return' for s in h.body[:-1]):
-				pass
+			if h.params[-1][1] == 'int' and r.random() < 0.5:
+				lo, hi = h.params[-1][2], h.params[-1][3]
+				h.default = (h.params[-1][0], r.randint(lo, hi))
+				self.count('default-arg')
 			p.funcs.append(h)
 			self.helpers.append(h)
 		for _ in range(r.randint(1, 4) if kind == 'expr' else r.randint(1, 2)):
